@@ -7,7 +7,7 @@
    differs from the amount's (exchange() then leaves the balance alone); two_entries: the
    balance has exactly two commodity entries (the implied-rate branch, stated separately). *)
 From LedgerV Require Import Base.Prelude Base.Round Model.Amount Model.Xact
-  Proofs.AmountProofs Proofs.XactProofs Proofs.GainLossProofs.
+  Proofs.AmountProofs Proofs.XactProofs Proofs.GainLossProofs Gen.SourceGuards.
 From Coq Require Import Qabs.
 Local Open Scope Q_scope.
 
@@ -145,3 +145,10 @@ Theorem nonbalancing_postings_play_no_part_in_gain_loss : forall ord cp ps bal p
   exists ps'', exchange_posts ord cp (filter must_balance ps) bal = Ok (ps'', bal').
 Proof. exact exchange_posts_skips_nonbalancing. Qed.
 Print Assumptions nonbalancing_postings_play_no_part_in_gain_loss.
+
+(* the tie to the source by translation: the lines of /repo/src this model transcribes (harness/translators/src_guards.py
+   lists them, with the function each is looked for in) are still there, in the same order, in the source as it is NOW -
+   coq/Gen/SourceGuards.v is regenerated on every run and names the guards that are false *)
+Theorem model_transcribes_current_source : forallb (fun b => b) src_guards_C01 = true.
+Proof. vm_compute. reflexivity. Qed.
+Print Assumptions model_transcribes_current_source.
